@@ -19,7 +19,9 @@ import (
 
 const header = "From CSS Require Import Lib.Base Lib.Cases Model.Verdicts Model.VerdictsCases."
 
-// fixed witnesses of the listed findings, re-run on the real code every time
+// fixed witnesses of the listed findings - the open ones and the repaired ones - re-run on the
+// real code every time: a witness of an open finding that reproduces is reported as known, one
+// of a repaired finding that reproduces again is a failure of the property (regression).
 func probes(c *gal.Ctx) {
 	hdr := fe{T: 0, A: 0x2020205f5449465f, S: 3, V: 0x100}
 	// adjacent BIOS startup modules [FFF00000,FFF80000) and [FFF80000,4G)
@@ -65,6 +67,8 @@ func probes(c *gal.Ctx) {
 	g = mk(0, 0x0004, 20+38)
 	g2 = mk(0, 0x0027, 70)
 	c.Probe("C05-NVIndex-nameAlg-cryptoHash", !g.Panic && !g.OK && g2.Panic, fmt.Sprintf("PSIndexConfig: nameAlg SHA1 with the correct size 58 -> %+v; nameAlg 0x27 (SHA3-256) -> %+v", g, g2))
+	g = mk(0, 0x0012, 32+38)
+	c.Probe("C05-NVIndex-SM3-lib", !g.Panic && !g.OK, fmt.Sprintf("PSIndexConfig on a correctly configured PS index with name algorithm SM3-256 (data size 70) returned %+v", g))
 	g = mk(2, 0x000B, 32+38)
 	c.Probe("C05-POIndexConfig-never-passes", !g.Panic && !g.OK, fmt.Sprintf("POIndexConfig on a correctly configured TPM 2.0 PO index returned %+v", g))
 
@@ -97,9 +101,8 @@ func probes(c *gal.Ctx) {
 		off := a.Info.TPMInfoList
 		g = runSinitTPM(append(acmWithCaps(sample, off, 0x11), make([]byte, 0x10000)...), 2, true)
 		c.Probe("C05-sinitACM-double-parse", !g.Panic && !g.OK, fmt.Sprintf("SINITACMcomplyTPMSpec, TPM 2.0 present, SINIT region = the bundled SINIT ACM with TPM capabilities 0x11 (both families) + zero padding: %+v", g))
-		two := append(acmWithCaps(sample, off, 0x10), acmWithCaps(sample, off, 0x10)...)
-		g = runSinitTPM(two, 1, true)
-		c.Probe("C05-SINITTPMSpec-precedence", g.isPass(), fmt.Sprintf("SINITACMcomplyTPMSpec, TPM 1.2 in use, ACM capabilities 0x10 (TPM 2.0 family only; module stored twice so that sinitACM returns one): %+v", g))
+		g = runSinitTPM(append(acmWithCaps(sample, off, 0x10), make([]byte, 0x10000)...), 1, true)
+		c.Probe("C05-SINITTPMSpec-precedence", g.isPass(), fmt.Sprintf("SINITACMcomplyTPMSpec, TPM 1.2 in use, SINIT ACM with TPM capabilities 0x10 (TPM 2.0 family only): %+v", g))
 	}
 
 	b := &bootguard.BootGuard{Version: bgheader.BootGuardVersion(0)}
